@@ -941,7 +941,7 @@ string act_w(int fd, uint64_t n) { return string("W") + std::to_string(fd) + ":"
 Script gen_script(bool for_communicate, size_t pipe_cap) {
   Script s;
   std::vector<string> a;
-  unsigned fam = choose(11, "family");
+  unsigned fam = choose(12, "family");
   auto sleep_act = [&](const char* site) {
     uint64_t us = pick({1000, 1, 50000, 900000, 1500000, 3000000, 30000000, 3600000000ULL}, site);
     s.total_sleep += us;
@@ -1018,6 +1018,17 @@ Script gen_script(bool for_communicate, size_t pipe_cap) {
       a.push_back(sleep_act("wp.sleep"));
       add_out(1, pick({1, 100, 70000, 200 * 1024}, "wp.o2"));
       if (choose(2, "wp.err")) add_out(2, pick({1, 100}, "wp.e"));
+      break;
+    case 11: // closes stdout AND stderr early (daemon style) and keeps running: no pipe is left to hear from
+      s.family = "closes_all_output_early";
+      if (choose(2, "ca.first")) add_out(1, pick({1, 100, 5000}, "ca.o"));
+      a.push_back("C1");
+      a.push_back("C2");
+      if (choose(2, "ca.read")) {
+        a.push_back("RA");
+        s.reads_to_eof = true;
+      }
+      a.push_back(sleep_act("ca.sleep"));
       break;
     case 10: { // chatty: a little output every few hundred milliseconds for many seconds - the parent's poll()
                // never comes back empty-handed, so nothing that only happens "when poll timed out" ever happens
@@ -1264,7 +1275,7 @@ void scen_run_process() {
   bool with_stdin = choose(4, "stdin.given") != 0;
   string payload = with_stdin ? make_payload(draw_bytes("payload")) : string();
   bool check = choose(2, "check");
-  uint64_t timeout = choose(3, "timeout.given") == 2 ? pick({2000000, 500000, 10000000, 100}, "timeout") : 0;
+  uint64_t timeout = choose(3, "timeout.given") == 2 ? pick({2000000, 500000, 10000000, 100, 3600000000ULL, 10800000000ULL}, "timeout") : 0;
   if (!s.uses_cat && !s.holds_pipes && choose(8, "descendant") == 7) {
     g.descendant = true;
     VS_PROBE("child_leaves_a_chatty_descendant");
@@ -1403,7 +1414,8 @@ void scen_communicate() {
   draw_environment();
   Script s = gen_script(true, effective_capacity());
   string payload = choose(3, "stdin.given") ? make_payload(draw_bytes("payload")) : string();
-  uint64_t deadline = choose(2, "deadline.given") ? pick({5000000, 500000, 60000000, 1000}, "deadline") : 0;
+  // (deadlines of hours are ordinary for batch jobs; they cost nothing here because time is simulated)
+  uint64_t deadline = choose(2, "deadline.given") ? pick({5000000, 500000, 60000000, 1000, 3600000000ULL, 7200000000ULL, 86400000000ULL}, "deadline") : 0;
   for (size_t i = 0, pc = 0; i < s.text.size(); i++) {
     if (s.text[i] == ';') pc++;
     if (!s.text.compare(i, 7, "IGNTERM")) g.ign_term_pcs.push_back(pc);
